@@ -6,6 +6,7 @@
 //                       o = void callback (derived Promise<void>); t = rethrowing, s = swallowing handler
 //     R<p>:<v>  resolve     J<p>:<e>  reject with exception code e
 //     A<p>,<p>[,<p>]    whenAll of 2 or 3 Promise<int>     K<p>,<p>[,<p>]   whenAny
+//     V<p>,...          whenAll(first, last) over 2-4 Promise<int>   W<p>,...   whenAny(first, last)
 // Log: <k>R<v>[.<v>..] / <k>J<e> per callback run (k = continuation index in creation order), E when the
 // settling party got an exception.
 #include <pistache/async.h>
@@ -50,10 +51,11 @@ struct Interp
     std::ostringstream log;
     int nconts = 0;
     // promise table: exactly one of the vectors holds id i
-    enum Kind { Int, Void, Tuple2, Tuple3, AnyP };
+    enum Kind { Int, Void, Tuple2, Tuple3, AnyP, VecP };
     std::vector<Kind> kinds;
     std::map<int, Async::Promise<int>> ints;
     std::map<int, Async::Promise<void>> voids;
+    std::map<int, Async::Promise<std::vector<int>>> vecs;
     std::map<int, Async::Promise<std::tuple<int, int>>> t2;
     std::map<int, Async::Promise<std::tuple<int, int, int>>> t3;
     std::map<int, Async::Promise<Async::Any>> anys;
@@ -131,6 +133,14 @@ struct Interp
                 kinds.push_back(Void);
                 voids.emplace(id, t3.at(src).then([this, k](const std::tuple<int, int, int>& t) { log << " " << k << "R" << std::get<0>(t) << "." << std::get<1>(t) << "." << std::get<2>(t); }, h));
                 break;
+            case VecP:
+                kinds.push_back(Void);
+                voids.emplace(id, vecs.at(src).then([this, k](const std::vector<int>& v) {
+                    log << " " << k << "R";
+                    for (size_t i = 0; i < v.size(); ++i)
+                        log << (i ? "." : "") << v[i];
+                }, h));
+                break;
             case AnyP:
                 kinds.push_back(Void);
                 voids.emplace(id, anys.at(src).then([this, k](const Async::Any& a) { log << " " << k << "R" << a.cast<int>(); }, h));
@@ -154,7 +164,7 @@ struct Interp
                 log << " E";
             }
         }
-        else if (c == 'A' || c == 'K')
+        else if (c == 'A' || c == 'K' || c == 'V' || c == 'W')
         {
             std::vector<int> in;
             std::string cur;
@@ -170,7 +180,27 @@ struct Interp
             }
             int id = static_cast<int>(kinds.size());
             nconts += static_cast<int>(in.size()); // the library's own continuations on the inputs
-            if (c == 'A' && in.size() == 2)
+            if (c == 'V' || c == 'W')
+            {
+                // the iterator-range overloads
+                std::vector<Async::Promise<int>> range;
+                for (int p : in)
+                    range.push_back(std::move(ints.at(p)));
+                if (c == 'V')
+                {
+                    kinds.push_back(VecP);
+                    vecs.emplace(id, Async::whenAll(range.begin(), range.end()));
+                }
+                else
+                {
+                    kinds.push_back(AnyP);
+                    anys.emplace(id, Async::whenAny(range.begin(), range.end()));
+                }
+                // the promises were moved into the range: put them back so that later ops can use them
+                for (size_t i = 0; i < in.size(); ++i)
+                    ints.at(in[i]) = std::move(range[i]);
+            }
+            else if (c == 'A' && in.size() == 2)
             {
                 kinds.push_back(Tuple2);
                 t2.emplace(id, Async::whenAll(ints.at(in[0]), ints.at(in[1])));
